@@ -88,6 +88,7 @@ type crash struct {
 	Seed uint64
 	Viol *kernel.Violation
 	Tail string
+	Plan *kernel.Plan // enum mode: the plan that was running (from the worker's marker)
 }
 
 type batchResult struct {
@@ -188,7 +189,13 @@ func runJob(scratch string, id int, job worker.Job, race bool, perRunTimeout tim
 			return nil, fmt.Errorf("worker %d: %s", id, lastLines(tail, 5))
 		}
 		mb, _ := os.ReadFile(job.Marker)
-		idx, _ := strconv.Atoi(strings.TrimSpace(string(mb)))
+		idx, vr := 0, 0
+		if fs := strings.Fields(string(mb)); len(fs) > 0 {
+			idx, _ = strconv.Atoi(fs[0])
+			if len(fs) > 1 {
+				vr, _ = strconv.Atoi(fs[1])
+			}
+		}
 		var v *kernel.Violation
 		switch {
 		case hung:
@@ -197,16 +204,18 @@ func runJob(scratch string, id int, job worker.Job, race bool, perRunTimeout tim
 			v = &kernel.Violation{Property: job.Property, Oracle: job.Property + ".no-race", Fingerprint: raceFingerprint(tail), Message: firstLines(raceBlock(tail), 45)}
 		default:
 			line, fp := crashFingerprint(tail)
-			if fp == "" && unexplained[idx] == 0 && (job.Mode == "seeds" || idx < len(job.Plans)) {
+			if fp == "" && unexplained[idx*100000+vr] == 0 && (job.Mode == "seeds" || job.Mode == "enum" || idx < len(job.Plans)) {
 				// The process went down below the Go runtime's panic machinery (seen once per several
 				// thousand race-detector runs: a bare "SIGSEGV ... PC=" register dump from the tsan
 				// runtime). Nothing of the system under test is on such a stack. The same run is
 				// repeated once in a fresh process; a second death of the same run is an error.
-				unexplained[idx]++
+				unexplained[idx*100000+vr]++
 				atomic.AddInt64(&toolCrashes, 1)
 				fmt.Fprintf(os.Stderr, "note: worker %d died below the Go runtime in run %d (%v); repeating that run once\n%s\n", id, idx, werr, firstLines(tail, 6))
 				if job.Mode == "seeds" {
 					job.First = idx
+				} else if job.Mode == "enum" {
+					job.First, job.FirstVar = idx, vr
 				} else {
 					out.Lines = append(out.Lines, worker.Line{K: "retrymark", I: idx})
 					job.Plans = job.Plans[idx:]
@@ -222,7 +231,23 @@ func runJob(scratch string, id int, job worker.Job, race bool, perRunTimeout tim
 			v = &kernel.Violation{Property: job.Property, Oracle: job.Property + ".process-crash", Fingerprint: fp, Message: line + "\n" + firstLines(tail[strings.Index(tail, line):], 25)}
 		}
 		c := crash{Idx: idx, Viol: v, Tail: lastLines(tail, 60)}
-		if job.Mode == "seeds" {
+		if job.Mode == "enum" {
+			var pl kernel.Plan
+			pb, _ := os.ReadFile(job.Marker + ".plan")
+			if json.Unmarshal(pb, &pl) != nil {
+				return nil, fmt.Errorf("worker %d: died in enum mode and left no plan file", id)
+			}
+			c.Plan, c.Seed = &pl, pl.Seed
+			out.Crashes = append(out.Crashes, c)
+			if vr == 0 {
+				job.First, job.FirstVar = idx+max(job.Stride, 1), 0 // the base scenario itself brings the process down
+			} else {
+				job.First, job.FirstVar = idx, vr+1
+			}
+			if job.DeadlineMs > 0 && time.Now().UnixMilli() >= job.DeadlineMs {
+				return out, nil
+			}
+		} else if job.Mode == "seeds" {
 			c.Seed = worker.RunSeed(job.BatchSeed, job.Property, idx)
 			out.Crashes = append(out.Crashes, c)
 			job.First = idx + max(job.Stride, 1)
@@ -658,6 +683,13 @@ func runEngine(pi *propInfo, prop, tier string, seed int64, workers, budget, max
 			defer wg.Done()
 			job := worker.Job{Engine: pi.Engine, Property: prop, Tier: tier, Mode: "seeds", BatchSeed: uint64(seed),
 				First: w, Stride: workers, DeadlineMs: deadline, Known: knownKeys, Twice: pi.Twice}
+			if pi.mode == "enum" {
+				job.Mode = "enum"
+				job.MaxPairs = pi.EnumPairsQuick
+				if tier == "thorough" {
+					job.MaxPairs = pi.EnumPairsThorough
+				}
+			}
 			if maxRuns > 0 {
 				job.MaxRuns = (maxRuns + workers - 1) / workers
 			}
@@ -731,7 +763,10 @@ func runEngine(pi *propInfo, prop, tier string, seed int64, workers, budget, max
 			k := c.Viol.Key()
 			counts[k]++
 			if f, ok := byKey[k]; !ok || c.Idx < f.idx {
-				plan := regenPlan(pi, prop, tier, c.Seed)
+				plan := c.Plan
+				if plan == nil {
+					plan = regenPlan(pi, prop, tier, c.Seed)
+				}
 				byKey[k] = &found{idx: c.Idx, seed: c.Seed, v: c.Viol, plan: plan, out: planOutcome{Crash: &c}}
 			}
 		}
@@ -829,6 +864,12 @@ func doCheck(prop, tier string) int {
 	if pi.Also != nil {
 		engines = append(engines, pi.Also)
 	}
+	if pi.Enum {
+		e := *pi
+		e.mode = "enum"
+		e.Rule = pi.EnumRule
+		engines = append(engines, &e)
+	}
 	total := worker.Agg{Faults: map[string]int{}, Probes: map[string]int{}, Known: map[string]int{}}
 	hashes := map[uint64]bool{}
 	states := map[uint64]bool{}
@@ -873,7 +914,11 @@ func doCheck(prop, tier string) int {
 		samples = append(samples, o.samples...)
 		vioLines = append(vioLines, o.vioLines...)
 		nviol += o.nviol
-		perEngine[e.Engine] = map[string]interface{}{"runs": o.total.Runs, "distinct_nontrivial": len(o.hashes), "rule": e.Rule, "oracles": e.Oracles, "components": e.Components}
+		ename := e.Engine
+		if e.mode != "" {
+			ename += "-" + e.mode
+		}
+		perEngine[ename] = map[string]interface{}{"runs": o.total.Runs, "distinct_nontrivial": len(o.hashes), "rule": e.Rule, "oracles": e.Oracles, "components": e.Components, "probes": o.total.Probes, "faults_fired": o.total.Faults}
 	}
 	wall := time.Since(start).Seconds()
 	// evidence
